@@ -1186,6 +1186,23 @@ var msgMatchers = []msgMatcher{
 		source: "custom_info filter: the routing info before CR LF equals the configured value",
 	},
 	{
+		fn: "modules/l4rdp.(*MatchRDP).Match", cfgName: "rdp custom_info={lb-1}", heap: rdpCfg("", "", "{lb-1}", ""), cfg: rdpJSON("", "", "{lb-1}", ""),
+		cases: []msgCase{
+			{"custom info {lb-1}", rdpCR(rdpHdr{}, cat([]byte("{lb-1}\r\n"), rdpNeg)), "yes"},
+			{"another custom info", rdpCR(rdpHdr{}, cat([]byte("lb-2\r\n"), rdpNeg)), "no"},
+			{"a cookie", rdpCR(rdpHdr{}, cat(rdpCookie, rdpNeg)), "no"},
+		},
+		source: "custom_info filter whose value stands in braces: braces that are no placeholder are part of the value",
+	},
+	{
+		fn: "modules/l4rdp.(*MatchRDP).Match", cfgName: "rdp cookie_hash=a{b}c", heap: rdpCfg("a{b}c", "", "", ""), cfg: rdpJSON("a{b}c", "", "", ""),
+		cases: []msgCase{
+			{"cookie of a{b}c", rdpCR(rdpHdr{}, cat([]byte("Cookie: mstshash=a{b}c\r\n"), rdpNeg)), "yes"},
+			{"cookie of ac", rdpCR(rdpHdr{}, cat([]byte("Cookie: mstshash=ac\r\n"), rdpNeg)), "no"},
+		},
+		source: "cookie_hash filter with braces in the value",
+	},
+	{
 		fn: "modules/l4rdp.(*MatchRDP).Match", cfgName: "rdp custom_info=x", heap: rdpCfg("", "", "x", ""), cfg: rdpJSON("", "", "x", ""),
 		cases: []msgCase{
 			{"custom info x", rdpCR(rdpHdr{}, cat([]byte("x\r\n"), rdpNeg)), "yes"},
